@@ -136,8 +136,9 @@ func (self *Parser) decodeArray(ret *linkedNodes) (Node, types.ParsingError) {
 		return Node{}, types.ERR_EOF
 	}
 
-	/* check for empty array */
-	if self.s[self.p] == ']' {
+	/* check for empty array: only before the first element, a resumed array that already
+	 * has children stands behind a comma and needs another element */
+	if self.s[self.p] == ']' && ret.Len() == 0 {
 		self.p++
 		return Node{t: types.V_ARRAY}, 0
 	}
@@ -202,8 +203,9 @@ func (self *Parser) decodeObject(ret *linkedPairs) (Node, types.ParsingError) {
 		return Node{}, types.ERR_EOF
 	}
 
-	/* check for empty object */
-	if self.s[self.p] == '}' {
+	/* check for empty object: only before the first pair, a resumed object that already
+	 * has members stands behind a comma and needs another pair */
+	if self.s[self.p] == '}' && ret.Len() == 0 {
 		self.p++
 		return Node{t: types.V_OBJECT}, 0
 	}
@@ -521,8 +523,8 @@ func (self *Node) skipNextNode() *Node {
 		return newSyntaxError(parser.syntaxError(types.ERR_EOF))
 	}
 
-	/* check for empty array */
-	if parser.s[parser.p] == ']' {
+	/* check for empty array: only before the first element (see decodeArray) */
+	if parser.s[parser.p] == ']' && ret.Len() == 0 {
 		parser.p++
 		self.setArray(ret)
 		return nil
@@ -579,8 +581,8 @@ func (self *Node) skipNextPair() *Pair {
 		return newErrorPair(parser.syntaxError(types.ERR_EOF))
 	}
 
-	/* check for empty object */
-	if parser.s[parser.p] == '}' {
+	/* check for empty object: only before the first pair (see decodeObject) */
+	if parser.s[parser.p] == '}' && ret.Len() == 0 {
 		parser.p++
 		self.setObject(ret)
 		return nil
